@@ -71,6 +71,7 @@ func cmdCore(args []string) int {
 	out := fs.String("out", "/verif/out", "directory for replay files")
 	result := fs.String("result", "", "write the result JSON here")
 	corpus := fs.String("corpus", "", "comma separated corpus dirs")
+	search := fs.Bool("search", false, "failing-input search: monitors only, larger budget")
 	fs.Parse(args)
 	if *replay != "" {
 		c, err := core.LoadCase(*replay)
@@ -106,8 +107,11 @@ func cmdCore(args []string) int {
 	if *n == 0 {
 		*n = def
 	}
+	if *search {
+		*n *= 6
+	}
 	p := &core.Pipeline{Prop: *prop, Seed: *seed, Tier: *tier, Driver: *driver, OutDir: *out,
-		Opts: o, NCases: *n, Workers: 12}
+		Opts: o, NCases: *n, Workers: 12, Search: *search}
 	if *corpus != "" {
 		p.Corpus = strings.Split(*corpus, ",")
 	}
